@@ -32,13 +32,16 @@ def one(d):
     # the probe crate dir is shared: give every job its own copy
     shutil.copytree(os.path.join(ROOT, 'probe'), os.path.join(w, 'probe'), ignore=shutil.ignore_patterns('target'))
     env['VERIF_PROBE_DIR'] = os.path.join(w, 'probe')
+    shutil.copytree(os.path.join(ROOT, 'kani'), os.path.join(w, 'kani'), ignore=shutil.ignore_patterns('target'))
+    env['VERIF_KANI_DIR'] = os.path.join(w, 'kani')
     row = {}
     for pid in plist:
         t0 = time.time()
         c = sh('cd %s && python3 vf/driver.py %s' % (ROOT, pid), env=env)
         kind = 'VIOL' if c.returncode == 1 else ('ok' if c.returncode == 0 else 'MACH')
         inp = 'input' if 'FAILING-INPUT' in c.stdout else ('nofi' if 'no-failing-input-found' in c.stdout else '')
-        row[pid] = dict(rc=c.returncode, kind=kind, inp=inp, s=round(time.time() - t0), lines=[l[:200] for l in c.stdout.split('\n') if l.startswith(('FAILED', 'MACHINERY', 'VIOLATION'))][:4])
+        row[pid] = dict(rc=c.returncode, kind=kind, inp=inp, s=round(time.time() - t0), lines=[l[:400] for l in c.stdout.split('\n') if l.startswith(('FAILED', 'FAILING', 'MACHINERY', 'VIOLATION'))][:5])
+        json.dump(row, open(os.path.join(ROOT, 'gen', 'matrix_partial_%s.json' % name), 'w'))
     shutil.rmtree(w, ignore_errors=True)
     print(name, ' '.join('%s:%s%s' % (p, row[p]['kind'], ('/' + row[p]['inp']) if row[p]['inp'] else '') for p in plist), flush=True)
     return name, row
